@@ -1,4 +1,5 @@
 import RedactVerif.Props.C01
+import RedactVerif.Props.FactsConsts
 /-
 C10 — escaping removes every marker from arbitrary bytes and nothing else.
 
